@@ -41,11 +41,13 @@ func (g *customGen[V]) maybeValue(t *T) (V, bool) {
 	parent := t
 	t = newT(t.tb, t.s, flags.debug, nil)
 	t.parent = parent
-	defer t.cleanup()
+	failing := false
+	defer t.cleanupCustom(&failing)
 
 	defer func() {
 		if r := recover(); r != nil {
 			if _, ok := r.(invalidData); !ok {
+				failing = true
 				panic(r)
 			}
 		}
